@@ -202,10 +202,13 @@ def int_rows(vals):
     return [a.tolist()] if a.ndim == 1 else a.tolist()
 
 
-def mesh_json(m, source="topology"):
+def mesh_json(m, source="topology", form=None):
     """source: 'topology' = Grid.from_topology(node_lon, node_lat, face_node_connectivity) (lon/lat only);
     'xyz' = Grid.from_face_vertices(Cartesian corner positions, latlon=False) (Cartesian only)"""
-    return dict(faces=m.faces, xyz=m.xyz.tolist(), kind=m.kind, closed=bool(m.closed), source=source)
+    j = dict(faces=m.faces, xyz=m.xyz.tolist(), kind=m.kind, closed=bool(m.closed), source=source)
+    if form:
+        j["coord_form"] = form
+    return j
 
 
 def meshfiles_dir():
@@ -298,6 +301,44 @@ def dialect_dataset(case):
     return ds
 
 
+COORD_FORMS = ["float64", "float32", "int64", "int-list", "float-list"]
+
+
+def whole(a):
+    return bool(np.allclose(a, np.round(a), atol=1e-9))
+
+
+def coord_as(a, form):
+    """node_lon / node_lat in the dtype or container form of the history (integer forms only for whole degrees)"""
+    a = np.asarray(a, float)
+    if form in ("int64", "int-list") and not whole(a):
+        form = "float64" if form == "int64" else "float-list"
+    if form == "float32":
+        return a.astype(np.float32)
+    if form == "int64":
+        return np.round(a).astype(np.int64)
+    if form == "int-list":
+        return [int(round(x)) for x in a]
+    if form == "float-list":
+        return [float(x) for x in a]
+    return a.copy()
+
+
+def whole_degree_mesh(rng, both=False):
+    """meshes whose longitudes (and, with `both`, latitudes) are whole degrees: prisms over a divisor of 360, lattices"""
+    if both:
+        return meshes.patch(rng.choice([2, 3]), rng.choice([1, 2]), lon0=rng.choice([-30, 150, 170]), lat0=rng.choice([-20, 40, 70]),
+                            dlon=rng.choice([5, 8]), dlat=rng.choice([4, 7]))
+    k = rng.choice([3, 4, 5, 6, 8])
+    return meshes.prism(k, lat=rng.choice([22.5, 35.26, 41.0]), lon0=float(rng.choice([-180, -90, 0, 45, 30])))
+
+
+def draw_form(rng, m):
+    lon_f = COORD_FORMS if whole(m.lon) else ["float64", "float32", "float-list"]
+    lat_f = COORD_FORMS if whole(m.lat) else ["float64", "float32", "float-list"]
+    return dict(lon=rng.choice(lon_f), lat=rng.choice(lat_f))
+
+
 def build_grid(ux, m, source, j=None, tmp=None, hit=lambda k: None):
     """the grid and the abstract mesh in the GRID's node numbering (a face-vertex source numbers its nodes itself;
     for a sample file the grid ux.open_grid returns IS the original the exports are compared with)"""
@@ -347,15 +388,30 @@ def build_grid(ux, m, source, j=None, tmp=None, hit=lambda k: None):
         except Exception:
             hit("source:reopened-could-not-be-built")
         return meshes.to_grid(m, ux), m
+    form = (j or {}).get("coord_form")
     if source != "xyz":
-        return meshes.to_grid(m, ux), m
+        if not form:
+            return meshes.to_grid(m, ux), m
+        # the dtype / container form of the source coordinates is a dimension of the histories
+        lon, lat = coord_as(m.lon, form.get("lon", "float64")), coord_as(m.lat, form.get("lat", "float64"))
+        g = ux.Grid.from_topology(node_lon=lon, node_lat=lat, face_node_connectivity=m.table().copy(), fill_value=INT_FILL)
+        hit(f"coord-form:lon={form.get('lon')},lat={form.get('lat')}")
+        m2 = grid_mesh(g, m.kind + "+" + form.get("lon", "") + "/" + form.get("lat", ""))  # what the grid holds IS the original
+        m2.tol = 1e-5 if "float32" in form.values() else 1e-7
+        return g, m2
     verts = np.full((m.n_face, m.width, 3), float(INT_FILL))
     for i, f in enumerate(m.faces):
         verts[i, : len(f)] = m.xyz[f]
+    if form and form.get("xyz") == "float32":
+        verts = verts.astype(np.float32)
+        verts[verts < -1e18] = np.float32(INT_FILL)
+        hit("coord-form:xyz=float32")
     g = ux.Grid.from_face_vertices(verts, latlon=False)
     t = np.asarray(g._ds["face_node_connectivity"].values)
     xyz = np.stack([g._ds["node_x"].values, g._ds["node_y"].values, g._ds["node_z"].values], axis=-1)
     m2 = meshes.AMesh([[int(v) for v in r if v != INT_FILL] for r in t], xyz, m.closed, m.kind + "+xyz")
+    if form and form.get("xyz") == "float32":
+        m2.tol = 1e-5
     return g, m2
 
 
@@ -391,7 +447,7 @@ def execute(H, driver, stats=None):
         shutil.rmtree(tmp, ignore_errors=True)
         raise
     grids, ms = [b[0] for b in built], [b[1] for b in built]
-    locs = [Locator(m) for m in ms]
+    locs = [Locator(m, getattr(m, "tol", 1e-7)) for m in ms]
     init_vars = [obs_vars(g._ds, skip=()) for g in grids]
     init_enc = [obs_encoding(g._ds) for g in grids]
     init_start = [g._ds["face_node_connectivity"].attrs.get("start_index") for g in grids]
@@ -404,7 +460,7 @@ def execute(H, driver, stats=None):
         elif H["meshes"][gi].get("source", "").startswith(("reopened:", "dialect")):
             pass
         elif m is not m0:
-            ids = Locator(m0).ids(m.lon, m.lat)
+            ids = Locator(m0, getattr(m, "tol", 1e-7)).ids(m.lon, m.lat)
             if [[int(ids[v]) for v in f] for f in m.faces] != m0.faces:
                 mismatches.append(dict(relation="C07/source/face-vertices-grid-differs-from-input", step=-1))
             hit("source:xyz")
@@ -506,10 +562,11 @@ def execute(H, driver, stats=None):
                     c = c / np.where(nrm > 0, nrm, 1.0)  # positions on the sphere are directions
                 cls = []
                 wrong = unit_rad(m.lon, m.lat)  # degrees handed to the radians function
+                ctol = 1e-9 if getattr(m, "tol", 1e-7) <= 1e-7 else 1e-5  # float32 sources: their own precision
                 for i in range(m.n_node):
-                    if c.shape == (3, m.n_node) and np.abs(c[:, i] - m.xyz[i]).max() < 1e-9:
+                    if c.shape == (3, m.n_node) and np.abs(c[:, i] - m.xyz[i]).max() < ctol:
                         cls.append(i + XYZ_OK)
-                    elif c.shape == (3, m.n_node) and np.abs(c[:, i] - wrong[i]).max() < 1e-9:
+                    elif c.shape == (3, m.n_node) and np.abs(c[:, i] - wrong[i]).max() < ctol:
                         cls.append(i)
                     else:
                         cls.append(-1)
@@ -867,6 +924,29 @@ def dialect_histories(rng, count):
     return out
 
 
+def coord_form_histories(rng):
+    """node_lon and node_lat independently float64 / float32 / int64 (whole degrees) / Python int list / Python float list,
+    Cartesian vertices float32: every format through both dispatchers (dtype promotion is exercised, not modelled)"""
+    out = []
+    combos = [dict(lon="int64", lat="float64"), dict(lon="int-list", lat="float-list"), dict(lon="float64", lat="int64"),
+              dict(lon="float32", lat="float32"), dict(lon="int64", lat="int64"), dict(lon="float-list", lat="float32"),
+              dict(lon="int-list", lat="float64"), dict(lon="float32", lat="float64")]
+    for c in combos:
+        both = c["lat"] in ("int64", "int-list")
+        m = whole_degree_mesh(rng, both=both)
+        if rng.random() < 0.5:
+            m = m.renumber(rng)
+        out.append(dict(meshes=[mesh_json(m, "topology", c)], ops=[["enc", 0, f, api(rng)] for f in FMTS]))
+    for _ in range(3):
+        m = whole_degree_mesh(rng, both=rng.random() < 0.4)
+        out.append(dict(meshes=[mesh_json(m, "topology", draw_form(rng, m))],
+                        ops=[["mat", 0, rng.sample(["edge_node_connectivity", "face_lon", "node_x", "face_areas"], 2)]]
+                        + [["enc", 0, f, api(rng)] for f in rng.sample(FMTS, 3)]))
+    m = pick_mesh(rng, cls="two")
+    out.append(dict(meshes=[mesh_json(m, "xyz", dict(xyz="float32"))], ops=[["enc", 0, f, api(rng)] for f in FMTS]))
+    return out
+
+
 def file_histories(rng, thorough):
     """grids opened from the sample files of the repository (all formats), exported through both entry points,
     fresh and after something was materialised; the exports are compared with the opened grid itself"""
@@ -977,8 +1057,15 @@ def random_history(rng, big=False):
             n_enc += 1
     if n_enc == 0:
         ops.append(["enc", rng.randrange(ng), rng.choice(FMTS), api(rng)])
-    return dict(meshes=[mesh_json(m, rng.choice(["xyz", "xyz", "reopened:ugrid", "reopened:exodus", "reopened:scrip"])
-                                  if rng.random() < 0.35 else "topology") for m in ms], ops=ops)
+    js = []
+    for m in ms:
+        if rng.random() < 0.35:
+            js.append(mesh_json(m, rng.choice(["xyz", "xyz", "reopened:ugrid", "reopened:exodus", "reopened:scrip"])))
+        elif rng.random() < 0.3:
+            js.append(mesh_json(m, "topology", draw_form(rng, m)))
+        else:
+            js.append(mesh_json(m))
+    return dict(meshes=js, ops=ops)
 
 
 def subset_histories(rng, count=None):
@@ -1126,7 +1213,9 @@ def run(ctx):
                 "file under test/meshfiles (UGRID, Exodus, SCRIP, MPAS, GEOS-CS; ESMF/RLL1deg in the thorough tier) and grids that are "
                 "the re-opened netCDF file of an earlier UGRID/Exodus/SCRIP export (unused first nodes included) and grids the UGRID reader "
                 "makes of sources in every dialect C01 generates (start_index 0/1 declared or not, fill forms, storage types, optional "
-                "tables each in its own dialect; harness/c01.py's generator and writers are imported); xarray's .encoding of "
+                "tables each in its own dialect; harness/c01.py's generator and writers are imported); node_lon / node_lat of explicit-topology "
+                "sources independently float64 / float32 / int64 / Python int list / Python float list, Cartesian vertices also float32 "
+                "(position tolerance 1e-5 when float32 is involved, 1e-7 otherwise); xarray's .encoding of "
                 "every variable is observed and judged by the model's to_netcdf conflict rule "
                 "(harness/meshes generators, built by Grid.from_topology (lon/lat only) or Grid.from_face_vertices (Cartesian only): uniform tri/quad, prisms/antiprisms (two sizes), split prisms and merged duals "
                 "(three or more sizes), partial lattices/fans/isolated faces, random renumbering/rotation, nodes that no face uses at the "
@@ -1160,6 +1249,8 @@ def run(ctx):
         run_history(ctx, H, "directed")
     for H in file_histories(rng, ctx.thorough or ctx.escalate):
         run_history(ctx, H, "sample-file")
+    for H in coord_form_histories(rng):
+        run_history(ctx, H, "coordinate-dtype-forms")
     for H in dialect_histories(rng, ctx.n(14, 160)):
         run_history(ctx, H, "ugrid-dialect-source")
     for _ in range(ctx.n(24, 1200)):
